@@ -38,13 +38,43 @@ fn recompute(b: f64, jac: f64) -> (f64, f64) {
     (b_inf.max(0.), jsup)
 }
 
+/// (b, m, a, q, jac) of one input row
+fn row_input(r: &Value) -> (f64, u64, f64, u64, f64) {
+    let src = r["src"].as_str().unwrap_or("grid");
+    let (bn, bd) = frac(&r["b"]);
+    let b = bn as f64 / bd as f64;
+    let (jac, m) = if src == "grid" {
+        let (kn, kd) = frac(&r["jac"]);
+        (kn as f64 / kd as f64, kd)
+    } else {
+        let p: f64 = r["p"].as_str().unwrap().parse().unwrap_or_else(|_| tool_error("bad p"));
+        (p, r["m"].as_u64().unwrap_or(4096))
+    };
+    let av = r["a"].as_str().and_then(|x| x.parse::<f64>().ok()).unwrap_or(20.);
+    let q = r["q"].as_u64().unwrap_or(65534);
+    (b, m, av, q, jac)
+}
+
 fn bounds(a: &Args) {
     let rows = read_ndjson(&a.str("in"));
     let mut out = Out::create(&a.str("out"));
     silence_panics();
     out.line(&json!({"op": "header", "unit": "1e-9", "what": "SetSketchParams::get_jaccard_bounds", "n": rows.len()}));
+    // the same calls once more, in a new thread and in the opposite order: the function is pure, so every call must give
+    // the bits it gave the first time (an interval that depends on what was asked before cannot be the interval of its
+    // own base and fraction)
+    let inputs: Vec<(f64, u64, f64, u64, f64)> = rows.iter().map(|r| row_input(r)).collect();
+    let inputs2 = inputs.clone();
+    let second: Vec<Option<(u64, u64)>> = std::thread::spawn(move || {
+        silence_panics();
+        let mut v: Vec<Option<(u64, u64)>> = inputs2.iter().rev()
+            .map(|(b, m, av, q, jac)| catch(|| SetSketchParams::new(*b, *m, *av, *q).get_jaccard_bounds(*jac)).ok().map(|(lo, hi)| (lo.to_bits(), hi.to_bits())))
+            .collect();
+        v.reverse();
+        v
+    }).join().unwrap_or_default();
     let mut n = 0u64;
-    for r in rows.iter() {
+    for (ri, r) in rows.iter().enumerate() {
         let src = r["src"].as_str().unwrap_or("grid");
         let (bn, bd) = frac(&r["b"]);
         let b = bn as f64 / bd as f64;
@@ -63,6 +93,13 @@ fn bounds(a: &Args) {
         let o = ev.as_object_mut().unwrap();
         o.insert("op".into(), json!("bounds"));
         o.insert("jac_s".into(), json!(format!("{:e}", jac)));
+        let again = second.get(ri).cloned().flatten();
+        let pure = match (&res, again) {
+            (Ok((lo, hi)), Some((l2, h2))) => lo.to_bits() == l2 && hi.to_bits() == h2,
+            (Err(_), None) => true,
+            _ => second.is_empty(),
+        };
+        o.insert("pure".into(), json!(pure));
         match res {
             Ok((lo, hi)) => {
                 if lo.is_finite() && hi.is_finite() {
